@@ -12,6 +12,7 @@ mod e_incoming;
 mod e_net;
 mod e_prefix;
 mod e_server;
+mod e_srvsplit;
 mod e_wantlist;
 mod node;
 mod gen;
@@ -57,6 +58,7 @@ fn run_engine(engine: &str, seed: u64, n: usize, tier: &str) {
         "server" => e_server::run(seed, n, tier),
         "client" => e_client::run(seed, n, tier),
         "net" => e_net::run(seed, n, tier),
+        "srvsplit" => e_srvsplit::run(seed, n, tier),
         "handler" => e_handler::run_client(seed, n, tier),
         "srvhandler" => e_handler::run_server(seed, n, tier),
         "wantlist" => e_wantlist::run(seed, n, tier),
